@@ -676,7 +676,7 @@ impl C16 {
                                 rand::sim::uninstall();
                                 let g2 = TapeGuard::install(&case.tape);
                                 let out = guarded(|| f(cv.split(&x)));
-                                std::mem::forget(g2); // the outer guard uninstalls on drop
+                                g2.dismiss(); // the outer guard uninstalls on drop
                                 out
                             };
                             let j = (case.tape.seed % pairs.len() as u64) as usize;
@@ -693,7 +693,7 @@ impl C16 {
                             checks.push(("fold", fresh(&|it| it.fold(vec![], |mut acc, p| { acc.push(p); acc })), pairs.clone()));
                             checks.push(("nth-then-rest", fresh(&|mut it| { let _ = it.nth(j); it.collect() }), pairs[j + 1..].to_vec()));
                             checks.push(("peekable", fresh(&|it| { let mut pk = it.peekable(); let _ = pk.peek(); pk.collect() }), pairs.clone()));
-                            let counted = { rand::sim::uninstall(); let g2 = TapeGuard::install(&case.tape); let r = guarded(|| { let it = cv.split(&x); let hint = it.size_hint(); (hint, it.count()) }); std::mem::forget(g2); r };
+                            let counted = { rand::sim::uninstall(); let g2 = TapeGuard::install(&case.tape); let r = guarded(|| { let it = cv.split(&x); let hint = it.size_hint(); (hint, it.count()) }); g2.dismiss(); r };
                             match counted {
                                 Err(msg) => rep.fail("panic", "kfold-iterator", format!("KFold(n={}, k={}).split().count() panicked: {}", n, k, msg)),
                                 Ok(((lo, hi), cnt)) => {
